@@ -349,9 +349,13 @@ func (a *NilAnalysis) transfer(fn *ssa.Function, ins ssa.Instruction, f nilFacts
 				return strings.HasSuffix(K, suffix) || strings.Contains(K, suffix+".") || strings.Contains(K, suffix+"[") || strings.Contains(K, suffix+"{")
 			})
 		case *ssa.IndexAddr:
-			killE(f, func(K string) bool { return strings.HasSuffix(K, "]") || strings.Contains(K, "].") || strings.Contains(K, "][") })
+			killE(f, func(K string) bool {
+				return strings.HasSuffix(K, "]") || strings.Contains(K, "].") || strings.Contains(K, "][")
+			})
 		case *ssa.Alloc, *ssa.Global, *ssa.FreeVar:
-			killE(f, func(K string) bool { return K == L || strings.HasPrefix(K, L+".") || strings.HasPrefix(K, L+"[") || strings.HasPrefix(K, L+"{") })
+			killE(f, func(K string) bool {
+				return K == L || strings.HasPrefix(K, L+".") || strings.HasPrefix(K, L+"[") || strings.HasPrefix(K, L+"{")
+			})
 		default:
 			// store through a computed pointer *T: only locations holding a T can change
 			want := typeStr(x.Val.Type())
@@ -388,7 +392,9 @@ func (a *NilAnalysis) transfer(fn *ssa.Function, ins ssa.Instruction, f nilFacts
 			if !nn {
 				killBy(f, func(k string) bool { return strings.HasSuffix(k, suffix) })
 			}
-			killBy(f, func(k string) bool { return strings.Contains(k, suffix+".") || strings.Contains(k, suffix+"[") || strings.Contains(k, suffix+"{") })
+			killBy(f, func(k string) bool {
+				return strings.Contains(k, suffix+".") || strings.Contains(k, suffix+"[") || strings.Contains(k, suffix+"{")
+			})
 		case *ssa.IndexAddr:
 			killBy(f, func(k string) bool { return strings.HasSuffix(k, "]") || strings.Contains(k, "].") })
 		case *ssa.Alloc:
@@ -398,7 +404,9 @@ func (a *NilAnalysis) transfer(fn *ssa.Function, ins ssa.Instruction, f nilFacts
 					delete(f, k)
 				}
 			}
-			killBy(f, func(k string) bool { return strings.HasPrefix(k, L+".") || strings.HasPrefix(k, L+"[") || strings.HasPrefix(k, L+"{") })
+			killBy(f, func(k string) bool {
+				return strings.HasPrefix(k, L+".") || strings.HasPrefix(k, L+"[") || strings.HasPrefix(k, L+"{")
+			})
 			f[pre+x.Val.Name()] = true
 		default:
 			// store through an arbitrary pointer: any location of that type may change
